@@ -686,6 +686,21 @@ pub(crate) fn openat2<Fd: AsFd, P: AsRef<Path>>(
     // RESOLVE_IN_ROOT handles that correctly in a race-free way.
     let mut how = how.clone();
     how.flags |= libc::O_CLOEXEC as u64;
+
+    // A path with an interior NUL byte cannot be passed to the kernel. rustix
+    // (and with it every other wrapper in this file) refuses such paths with
+    // EINVAL -- do the same rather than silently looking up the part in front
+    // of the NUL byte.
+    if path.as_os_str().as_bytes().contains(&b'\0') {
+        return Err(Error::Openat2 {
+            dirfd: dirfd.into(),
+            path: path.into(),
+            how,
+            size: std::mem::size_of::<OpenHow>(),
+            source: Errno::INVAL,
+        });
+    }
+
     // Never let an opened file become our controlling terminal (as with
     // openat). openat2(2) rejects O_PATH combined with flags that don't make
     // sense for it, so only add it for real opens.
